@@ -4,7 +4,10 @@ import json, os, subprocess
 ROOT = os.path.dirname(os.path.dirname(os.path.abspath(__file__)))
 props = json.load(open(os.path.join(ROOT, "props.json")))
 import glob
+_enabled = open(os.path.join(ROOT, "props.d", "ENABLED")).read().split()
 for _p in sorted(glob.glob(os.path.join(ROOT, "props.d", "*.json"))):
+    if os.path.basename(_p)[:-5] not in _enabled:
+        continue  # fragment of an engine that is still being built: runnable with ./check, not claimed
     _f = json.load(open(_p))
     props["properties"].update(_f.get("properties", {}))
     props.setdefault("engines", {}).update(_f.get("engines", {}))
